@@ -729,3 +729,50 @@ FAMILIES = [
     Family('separable_sum', gen_separable, impl, coq, PREAMBLE, compare, oracle, nontrivial=nontrivial, descr=descr, shard=30,
            theorem='C08_separable_prox_opt*, C08_separable_value'),
 ]
+
+
+# ---- added after seeded change C08-3: results depend on the functional's CURRENT weight/target only ----------------
+def _gen_weight_update(rng, tier):
+    out = []
+    for i in range(12 if tier == 'quick' else 200):
+        out.append({'cls': ['L2NormSquared', 'MSE', 'L1Norm', 'L1NormViewAsReal'][i % 4], 'n': rng.randint(2, 5), 'seed': rng.randrange(10 ** 6),
+                    'factor': rng.choice([2.0, 0.5, 3.0]), 'divide_by_n': rng.random() < 0.5, 'what': rng.choice(['weight', 'target', 'both']),
+                    'first_call': rng.choice(['prox', 'prox_convex_conj', 'forward'])})
+    return out
+
+
+def _impl_weight_update(c):
+    import torch
+    import mrpro.operators.functionals as F
+    g = torch.Generator().manual_seed(c['seed'])
+    w = torch.randint(1, 4, (c['n'],), generator=g).to(torch.float64)
+    t = torch.randint(-3, 4, (c['n'],), generator=g).to(torch.float64)
+    x = torch.randint(-6, 7, (c['n'],), generator=g).to(torch.float64) / 2
+    cls = getattr(F, c['cls'])
+    f = cls(weight=w.clone(), target=t.clone(), divide_by_n=c['divide_by_n'])
+    getattr(f, c['first_call'])(*((x,) if c['first_call'] == 'forward' else (x, 0.5)))
+    with torch.no_grad():   # the user updates the functional's buffers in place (e.g. a reweighting scheme)
+        if c['what'] in ('weight', 'both'):
+            f.weight.mul_(c['factor'])
+        if c['what'] in ('target', 'both'):
+            f.target.add_(1.0)
+    fresh = cls(weight=f.weight.clone(), target=f.target.clone(), divide_by_n=c['divide_by_n'])
+    dev = 0.0
+    for name, args in (('forward', (x,)), ('prox', (x, 0.5)), ('prox_convex_conj', (x, 0.5))):
+        a, b = getattr(f, name)(*args)[0], getattr(fresh, name)(*args)[0]
+        dev = max(dev, float((a - b).abs().max()))
+    return {'dev': dev}
+
+
+def _oracle_weight_update(c, o):
+    if isinstance(o, dict) and 'raises' in o:
+        return f'{c["cls"]}: {o}'
+    if o['dev'] > 1e-12:
+        return (f'{c["cls"]}: after an in-place update of its {c["what"]} (following a {c["first_call"]} call) the functional no longer '
+                f'agrees with a fresh functional built from the same weight/target: deviation {o["dev"]:.3g} - forward/prox/prox_convex_conj '
+                'are not consistent with the current definition')
+    return None
+
+
+FAMILIES.append(Family('buffer_update_history', _gen_weight_update, _impl_weight_update, None, '', None, _oracle_weight_update,
+                       theorem='(implementation-level: values depend on the current weight/target only)'))
